@@ -296,6 +296,85 @@ static void valueRound(long assigns, int pace, long round, uint64_t rs)
     vh::sample(vh::J().kv("case", ctx).kv("updates_true", (long long)updatesTrue).kv("updates_false", (long long)updatesFalse).str(), 8);
 }
 
+// ---- value, burst protocol: the producer assigns a short burst, announces "stopped at N" and
+// waits for an acknowledgement; the consumer, once it sees the announcement, must obtain N with
+// one update()+get() ("once the producer has stopped the consumer obtains the last value") -
+// checked at every burst boundary, not only at the end of the run.
+static void valueBurstRound(long bursts, long round, uint64_t rs)
+{
+  TransactionalValue<Val> tv;
+  std::string ctx = "#" + std::to_string(round) + " TransactionalValue burst protocol, bursts=" + std::to_string(bursts);
+  std::atomic<uint64_t> stoppedAt(0), acked(0);
+  std::atomic<bool> done(false);
+  std::atomic<int> go(0);
+  long lost = 0, invalid = 0, backwards = 0, updTrueNoNew = 0;
+  std::string firstBad;
+  std::thread producer([&]() {
+    vh::Rng r(rs, 31);
+    uint64_t seq = 0;
+    while (!go.load()) {
+    }
+    for (long b = 0; b < bursts; ++b) {
+      int n = 1 + (int)r.below(4);
+      for (int i = 0; i < n; ++i)
+        tv = Val(++seq);
+      stoppedAt.store(seq);
+      while (acked.load() != seq)
+        std::this_thread::yield();
+    }
+    done.store(true);
+  });
+  std::thread consumer([&]() {
+    uint64_t prev = 0;
+    while (!go.load()) {
+    }
+    while (!done.load()) {
+      uint64_t target = stoppedAt.load();
+      bool upd        = tv.update();
+      Val v           = tv.get();
+      if (!v.valid()) {
+        ++invalid;
+        if (firstBad.empty())
+          firstBad = "invalid value seq=" + std::to_string(v.seq);
+      } else if (v.seq < prev) {
+        ++backwards;
+      } else
+        prev = v.seq;
+      (void)upd;
+      if (target != 0 && target != acked.load()) {
+        // the producer had stopped at `target` BEFORE this update(): the value must be there
+        if (v.valid() && v.seq != target) {
+          // one more update()/get() to tell "late" from "lost"
+          bool upd2 = tv.update();
+          Val v2    = tv.get();
+          if (!(v2.valid() && v2.seq == target)) {
+            ++lost;
+            if (firstBad.empty())
+              firstBad = "producer stopped after assigning " + std::to_string(target) + ", consumer holds " + std::to_string(v.seq) + " after update() and " + std::to_string(v2.seq) + " after another update()" + (upd2 ? " (which returned true)" : " (which returned false)");
+          } else
+            prev = v2.seq;
+        }
+        if (tv.update())
+          ++updTrueNoNew;  // nothing was assigned since: the producer is waiting for the ack
+        acked.store(target);
+      }
+    }
+  });
+  go.store(1);
+  producer.join();
+  consumer.join();
+  if (lost)
+    vh::violation("C12:value:last-value-not-obtained", std::to_string(lost) + " burst(s) whose last value the consumer could not obtain although the producer had stopped; " + firstBad, ctx);
+  if (invalid)
+    vh::violation("C12:value:torn-or-invented-value", std::to_string(invalid) + " invalid value(s); " + firstBad, ctx);
+  if (backwards)
+    vh::violation("C12:value:order-violated", std::to_string(backwards) + " time(s) an older value followed a newer one", ctx);
+  if (updTrueNoNew)
+    vh::violation("C12:value:update-true-without-new-value", std::to_string(updTrueNoNew) + " time(s) update() returned true although nothing had been assigned since the last update", ctx);
+  vh::count("value_bursts_checked", bursts);
+  vh::evaluated(vh::hash64(vh::hash64(77, (uint64_t)bursts), (uint64_t)round), true);
+}
+
 int main(int argc, char **argv)
 {
   vh::init(argc, argv);
@@ -320,6 +399,7 @@ int main(int argc, char **argv)
     else
       bufferRound<uint64_t>(producers, per, pace, k, rs);
     valueRound((long)r.pick(std::vector<long>{2000, 10000, 50000}) * scale, pace, k, rs);
+    valueBurstRound(300 * scale, k, rs);
     vh::count("rounds");
   }
   return vh::finish();
